@@ -314,6 +314,10 @@ class _Relay:
         self.prop = ctx.prop
         self.count = 0
 
+    @property
+    def obligations(self):
+        return self._ctx.obligations
+
     def rule(self, rid, text):
         pass
 
